@@ -488,6 +488,10 @@ def flat_fields(desc, cid):
     return base + [(cid, f) for f in c['fields']]
 
 
+def has_required_attr(desc, cid):
+    return any(f['kind'] == 'attr' and f['min'] > 0 for _, f in flat_fields(desc, cid))
+
+
 def is_multi(f):
     return f['max'] is None or f['max'] > 1
 
@@ -556,17 +560,6 @@ CALLS = []
 def build_service(desc, classes):
     """one echo method per class: m<i>(x: K<i>) -> K<i>; calls are recorded in CALLS"""
     from spyne import ServiceBase, rpc
-    ns = {}
-    for i, cls in enumerate(classes):
-        def mk(i, cls):
-            @rpc(cls, _returns=cls)
-            def fn(ctx, x):
-                CALLS.append((i, x))
-                return ctx.udc['ret'] if getattr(ctx, 'udc', None) and 'ret' in ctx.udc else x
-            fn.__name__ = 'm%d' % i
-            return fn
-        ns['m%d' % i] = mk(i, cls)
-    # the decorator reads the function name at decoration time; rebuild with explicit names
     body = {}
     for i, cls in enumerate(classes):
         body['m%d' % i] = _mk_method(i, cls)
@@ -776,11 +769,15 @@ def _doc_member(rng, desc, classes, scls, f, ty, ns, name, depth, bad_p, nil_p, 
         c.set('{%s}nil' % XSI, rng.choice(['true', '1']))
         if not nillable:
             notes.append('nil:not-nillable')
+        elif ty[0] == 'ref' and has_required_attr(desc, ty[1]):
+            notes.append('finding:nil-required-attribute')  # XSD wants the attribute on the nil element too
         return c
     if ty[0] == 'leaf':
         c = etree.Element(tag)
         t = _leaf_text(rng, ty[1], bad_p, notes, 'elem')
         c.text = t if t is not None else ''
+        if not c.text and f is not None and f.get('default') is not None:
+            notes.append('schema-only:default')            # XSD reads an empty element as the default value
         return c
     if ty[0] == 'ref':
         return _doc_obj(rng, desc, classes, ty[1], ns, name, depth - 1, bad_p, nil_p, notes)
